@@ -978,3 +978,115 @@ def element_of(t):
         return coll(t[1]), const_int(t[2])
     return None
 
+
+def canon_range(subject, rg):
+    """a[x..], a[..y], a[..], a[x..a.len()], a[0..y] all as (x, y) with y == ('len',) for the subject's length and x == 0 by default"""
+    a = agg_variant(rg)
+    if not a or a[1] not in ("Range", "RangeFrom", "RangeTo", "RangeFull"):
+        return None
+    lo = a[2][0] if a[1] in ("Range", "RangeFrom") else ("const", "usize", 0)
+    hi = a[2][1] if a[1] == "Range" else (a[2][0] if a[1] == "RangeTo" else LEN)
+    if hi != LEN and is_call(strip_refs(hi), "::len") and strip_refs(call_args(strip_refs(hi))[0]) == strip_refs(subject):
+        hi = LEN
+    return (lo, hi)
+
+
+# ---------------------------------------------------------------- quantifiers: `for x in c { if !p(x) { return false } } true`  ==  `c.iter().all(p)`
+
+ELEM = ("elem",)
+ITER_VIEWS = ("::iter", "IntoIterator>::into_iter", "::into_iter", "Deref>::deref", "::as_slice", "::iter_mut", "::values", "::keys")
+
+
+def _iter_source(t):
+    t = strip_refs(t)
+    for _ in range(8):
+        if is_call(t, *ITER_VIEWS) and call_args(t):
+            t = strip_refs(call_args(t)[0])
+        elif isinstance(t, tuple) and t and t[0] in ("deref", "loc"):
+            t = strip_refs(t[1] if t[0] == "deref" else t[2] if len(t) > 2 else t)
+        elif isinstance(t, tuple) and t and t[0] == "havoc" and len(t) > 3 and isinstance(t[3], tuple):
+            t = strip_refs(t[3])      # a loop-carried iterator: its value on loop entry
+        else:
+            break
+    return t
+
+
+def is_elem(t):
+    """the term is (derived from) the element currently looked at: ELEM in the combinator form, the Some payload of next() in the loop form"""
+    return mentions(t, lambda s: s == ELEM or (s[0] == "downcast" and s[2] == "Some" and is_call(strip_refs(s[1]), "::next")))
+
+
+def quantifier(ctx, key, paths=None):
+    """Normal form of a bool function whose answer quantifies over a collection, or None:
+         dict(kind='all'|'any', coll=<collection term>, pred=<term of the per-element test>, neg=<bool: the test is negated>, form='loop'|'combinator',
+              before=[conditions assumed before the quantifier is reached])
+       all  : true iff every element passes pred (false at the first that does not);  any : true iff some element passes."""
+    paths = paths if paths is not None else ctx.paths(key)
+    body = ctx.body(key)
+    if not paths or body is None:
+        return None
+    rets = ret_paths(paths)
+    # combinator form: some returning path returns c.iter().all(closure) / .any(closure)
+    for p in rets:
+        t = strip_refs(p.end[1])
+        neg_out = False
+        while isinstance(t, tuple) and t and t[0] == "unop" and t[1] == "Not":
+            t = strip_refs(t[2])
+            neg_out = not neg_out
+        if is_call(t, "Iterator>::all", "Iterator>::any", "::all", "::any") and len(call_args(t)) == 2 and not neg_out:
+            kind = mir.norm_path(t[1]).rsplit("::", 1)[-1]
+            clo = strip_refs(call_args(t)[1])
+            pe = mir.PathEval(ctx.fx, body, inline=ctx.inline_set, desugar=True)
+            alts = pe._apply(clo, (ELEM,), 0)
+            vals = [(fs, v) for (_, fs, v) in alts if v is not None]
+            if len(vals) != 1 or vals[0][0]:
+                return None         # a predicate with internal branching: not normalised
+            pred = vals[0][1]
+            neg = False
+            while isinstance(pred, tuple) and pred and pred[0] == "unop" and pred[1] == "Not":
+                pred = pred[2]
+                neg = not neg
+            return dict(kind=kind, coll=_iter_source(call_args(t)[0]), pred=pred, neg=neg, form="combinator", before=list(p.conds()))
+    # loop form: a loop driven by next(); inside it one test decides between `return <const>` and the back edge; after exhaustion the other constant
+    for h in sorted(body.loops):
+        drv = [c for p in paths for c in p.conds() if c.term[0] == "discr" and is_call(strip_refs(c.term[1]), "::next") and strip_refs(c.term[1])[4] == h]
+        if not drv:
+            continue
+        nx = strip_refs(drv[0].term[1])
+        inloop = [p for p in rets if any(c.term == drv[0].term and c.fact == ("eq", 1) for c in p.conds()) and const_of(p.end[1]) in (True, False)]
+        after = [p for p in rets if any(c.term == drv[0].term and c.fact == ("eq", 0) for c in p.conds()) and const_of(p.end[1]) in (True, False)]
+        backs = [p for p in paths if p.end[0] == "back" and p.end[1] == h]
+        inloop = [p for p in inloop if p not in after]
+        if not inloop or not after or not backs:
+            continue
+        early = {const_of(p.end[1]) for p in inloop}
+        late = {const_of(p.end[1]) for p in after}
+        if len(early) != 1 or len(late) != 1 or early == late:
+            continue
+        kind = "all" if early == {False} else "any"
+
+        def body_conds(p):
+            cs = p.conds()
+            i = max(j for j, c in enumerate(cs) if c.term == drv[0].term)
+            return cs[i + 1:]
+        tests = {}
+        ok = True
+        for p in inloop + backs:
+            bc = body_conds(p)
+            if len(bc) != 1 or bc[0].fact[0] != "eq" or not isinstance(bc[0].fact[1], bool):
+                ok = False
+                break
+            tests.setdefault(bc[0].term, {})[p in backs] = bc[0].fact[1]
+        if not ok or len(tests) != 1:
+            continue
+        pred, tv = next(iter(tests.items()))
+        if set(tv) != {True, False} or tv[True] == tv[False]:
+            continue
+        # all : continue (back) when the element passes;  any : continue when it does not
+        passes_on_back = tv[True]
+        neg = (not passes_on_back) if kind == "all" else passes_on_back
+        before = [c for c in backs[0].conds() if c.bb != h][:]
+        before = before[:[j for j, c in enumerate(backs[0].conds()) if c.term == drv[0].term][0]]
+        return dict(kind=kind, coll=_iter_source(call_args(nx)[0]), pred=pred, neg=neg, form="loop", before=before)
+    return None
+
